@@ -41,7 +41,7 @@ def opcodes : List (String × Nat) :=
    ("POPN", 29),
    ("BIND", 30)]
 
-/- source: machine.go:148 -/
+/- source: machine.go:129 -/
 def operands : List (String × List String) :=
   [("NOP", []),
    ("RET", []),
@@ -111,7 +111,7 @@ def versionMinor : Nat :=
 def dumpSections : List String :=
   ["magic+version", "name", "code", "constants", "positions", "lfs"]
 
-/- source: machine.go:64, machine.go:65, parse.go:70, parse.go:724, lex.go:32, api.go:56 -/
+/- source: machine.go:45, machine.go:46, parse.go:70, parse.go:724, lex.go:32, api.go:56 -/
 def limits : List (String × Nat) :=
   [("stackSize", 1024),
    ("blockStackSize", 16),
@@ -304,7 +304,7 @@ def concSkeleton : List (String × List String) :=
    ("lexer.nextToken", ["recv l.tokens", "return"]),
    ("parser.advance", ["for {", "call p.lexer.nextToken", "if !ok {", "return", "}", "if p.current.typ != tERR {", "break", "}", "}"])]
 
-/- source: all functions of package bcl (176) -/
+/- source: all functions of package bcl (175) -/
 def chanUsers : List String :=
   []
 
@@ -316,17 +316,17 @@ def lfsAccess : List (String × String) :=
    ("lineCalc.lineColAt", "locked"),
    ("newLineCalc", "new")]
 
-/- source: every function of package bcl (176) -/
+/- source: every function of package bcl (175) -/
 def progWriters : List String :=
   ["Prog.Load", "Prog.addConst", "Prog.initForParse", "Prog.write", "parser.end"]
 
-/- source: every function of package bcl (176) -/
+/- source: every function of package bcl (175) -/
 def pkgVarWriters : List String :=
   ["init"]
 
 /- source: syntactic call graph from execute -/
 def execReach : List String :=
-  ["Block.key", "Prog.disasmInstr", "SliceBinding.binding", "StructBinding.binding", "_", "bindInstr", "binopNumeric", "binopString", "blockInstr", "constInstr", "execute", "isAlpha", "isAlphaNum", "isDigit", "isEol", "isFalsey", "isFloat", "isInt", "isNumber", "isSpace", "isString", "jumpInstr", "lexFloat", "lexHex", "lexKeywordOrIdent", "lexLineComment", "lexNumber", "lexQuote", "lexSpace", "lexStart", "lexer.accept", "lexer.acceptRun", "lexer.acceptRunFunc", "lexer.backup", "lexer.current", "lexer.emit", "lexer.emitError", "lexer.fail", "lexer.ignore", "lexer.next", "lexer.peek", "lexer.run", "lexer.unbackup", "lineCalc.format", "lineCalc.lineColAt", "opcode.String", "printStack", "simpleInstr", "token.String", "tokenType.String", "typecode.String", "u16FromBytes", "unopNumeric", "uvarintFromBytes", "varbyteargInstr", "vm.reset", "vm.run", "vm.runtimeError", "vm.warning", "vtype"]
+  ["Block.key", "Prog.disasmInstr", "SliceBinding.binding", "StructBinding.binding", "_", "bindInstr", "binopNumeric", "binopString", "blockInstr", "constInstr", "execute", "isAlpha", "isAlphaNum", "isDigit", "isEol", "isFalsey", "isFloat", "isInt", "isNumber", "isSpace", "isString", "jumpInstr", "lexFloat", "lexHex", "lexKeywordOrIdent", "lexLineComment", "lexNumber", "lexQuote", "lexSpace", "lexStart", "lexer.accept", "lexer.acceptRun", "lexer.acceptRunFunc", "lexer.backup", "lexer.current", "lexer.emit", "lexer.emitError", "lexer.fail", "lexer.ignore", "lexer.next", "lexer.peek", "lexer.run", "lexer.unbackup", "lineCalc.format", "lineCalc.lineColAt", "opcode.String", "printStack", "simpleInstr", "token.String", "tokenType.String", "typecode.String", "u16FromBytes", "unopNumeric", "uvarintFromBytes", "varbyteargInstr", "vm.run", "vm.runtimeError", "vm.warning", "vtype"]
 
 /- source: syntactic call graph from ParseFile -/
 def pipelineReach : List String :=
